@@ -11,10 +11,16 @@ def wrapper_configs(adapter: Any, tier: str) -> List[Dict[str, Any]]:
     cfgs = adapter.configs()
     clock = [c for c in cfgs if c.get("clock") and c.get("tl") in ((3,) if tier == "quick" else (2, 3, 7))]
     quick = [c for c in cfgs if c.get("quick") and not c.get("clock")]
+    extra = []
+    if adapter.name == "Snake":
+        # "every environment" includes user-wrapped ones: Snake behind an observation-mirroring Wrapper
+        m = dict(clock[0])
+        m["id"], m["mirror"] = m["id"] + "+mirror", True
+        extra = [m]
     if tier == "quick":
         # one configuration in which episodes end often: tiny time limit, else the small quick config
-        return (clock[:1] or quick[1:2] or quick[:1])
-    return clock + [c for c in cfgs if not c.get("clock")]
+        return (clock[:1] or quick[1:2] or quick[:1]) + extra
+    return clock + [c for c in cfgs if not c.get("clock")] + extra
 
 
 class C13(Prop):
